@@ -4,8 +4,12 @@
 (* the same seeded drivers -- one from a build with some feature set, one   *)
 (* from the build with no features -- are stepped in lock-step.  Every pair *)
 (* of events must be identical, except character_direction events, which   *)
-(* may differ only by the documented refinement: a script-less identifier  *)
-(* of a language CLDR lists as right-to-left.                              *)
+(* may differ only where the likely-subtags refinement can apply: an        *)
+(* identifier of a language CLDR lists as right-to-left whose script is     *)
+(* absent or not one CLDR lists (C20 compares the transcripts "outside the  *)
+(* character_direction column"; where a listed script or a never-RTL        *)
+(* language fixes the answer in every configuration, C14, a difference is   *)
+(* still reported).                                                         *)
 (*   env TRACE_A  the feature build's log;  env TRACE_B  the base log      *)
 (***************************************************************************)
 EXTENDS Cldr, Ascii
@@ -18,7 +22,8 @@ VARIABLE pos
 DirRefines(a, b) ==
     /\ a.l = b.l /\ a.s = b.s /\ a.r = b.r
     /\ \/ a.dir = b.dir
-       \/ a.s = <<>> /\ StrOfBytes(a.l) \in D.rtlLangs
+       \/ /\ StrOfBytes(a.l) \in D.rtlLangs
+          /\ a.s = <<>> \/ StrOfBytes(a.s) \notin ListedScripts
 
 Same(a, b) ==
     IF a.op = "dir" /\ b.op = "dir" THEN DirRefines(a, b)
